@@ -140,7 +140,18 @@ def gen_bs(rng: random.Random, tier: str) -> dict:
     lo, hi = float(xa.min()), float(xa.max())
     span = hi - lo
     xnew = [rng.uniform(lo - 0.3 * span, hi + 0.3 * span) for _ in range(6)] + [lo, hi]
-    return {"fn": "bs", "x": x, "kw": kw, "kind": kind, "nan_rows": nan_rows, "xnew": xnew, "path": rng.choice(["direct", "direct", "mm"]), "ext_as_enum": rng.random() < 0.25}
+    as_int = None
+    if kind == "ints" and not nan_rows and rng.random() < 0.6:
+        # an integer column (possibly unsigned) with whole-number knots and bounds given as Python ints
+        as_int = rng.choice(["uint8", "int64", "int8"])
+        kw.pop("df", None)
+        inner = sorted({int(q) for q in rng.sample(range(int(lo) + 1, max(int(lo) + 2, int(hi))), min(2, max(1, int(hi) - int(lo) - 1)))}) if hi - lo >= 2 else []
+        kw["knots"] = [q for q in inner if lo < q < hi]
+        if not kw["knots"]:
+            kw.pop("knots")
+        kw["lower_bound"], kw["upper_bound"] = int(lo), int(hi)
+        xnew = [float(v) for v in (int(lo), int(hi), int(lo) + 1, max(int(lo), int(hi) - 1))] + ([float(int(hi) + 2), float(max(0, int(lo) - 1))] if kw["extrapolation"] != "raise" else [])
+    return {"as_int": as_int, "fn": "bs", "x": x, "kw": kw, "kind": kind, "nan_rows": nan_rows, "xnew": xnew, "path": rng.choice(["direct", "direct", "mm"]), "ext_as_enum": rng.random() < 0.25}
 
 
 def kwtext(kw):
@@ -170,16 +181,17 @@ def judge_bs(case) -> Outcome:
     x = np.array(case["x"], float)
     x[case["nan_rows"]] = np.nan
     n = len(x)
-    tag = f"bs(x, {kwtext(kw)}) kind={case['kind']} n={n} nan_rows={case['nan_rows']} path={case['path']}"
+    asint = (lambda a: np.asarray(a).astype(case["as_int"])) if case.get("as_int") else (lambda a: a)
+    tag = f"bs(x, {kwtext(kw)}) kind={case['kind']} n={n} nan_rows={case['nan_rows']} path={case['path']} dtype={case.get('as_int') or 'float64'}"
     has_bounds = "lower_bound" in kw
     oob_given = has_bounds and bool(np.any((x < kw["lower_bound"]) | (x > kw["upper_bound"])))
     st: dict = {}
     try:
         with quiet():
             if case["path"] == "direct":
-                M = call_spline(case, "bs", x, st, kw)
+                M = call_spline(case, "bs", asint(x), st, kw)
             else:
-                mm = model_matrix(f"0 + bs(x, {kwtext(kw)})", pd.DataFrame({"x": x}), na_action="ignore", context={})
+                mm = model_matrix(f"0 + bs(x, {kwtext(kw)})", pd.DataFrame({"x": asint(x)}), na_action="ignore", context={})
                 M = dense(mm)
                 st = dict(next(iter(mm.model_spec.transform_state.values())))
     except Exception as e:  # noqa: BLE001
@@ -256,7 +268,7 @@ def judge_bs(case) -> Outcome:
     # partition of unity and non-negativity of the full basis inside the bounds
     try:
         with quiet():
-            F = call_spline(case, "bs", x, dict(st), {"degree": k, "include_intercept": True, "extrapolation": ext})
+            F = call_spline(case, "bs", asint(x), dict(st), {"degree": k, "include_intercept": True, "extrapolation": ext})
         inside = ~((x < lo) | (x > hi)) & ~np.isnan(x)
         if inside.any() and (not np.allclose(F[inside].sum(axis=1), 1, atol=1e-8) or (F[inside] < -1e-10).any()):
             out.fail("c12.partition_of_unity", f"{tag}: full basis rows inside the bounds are not non-negative with sum 1")
@@ -269,7 +281,7 @@ def judge_bs(case) -> Outcome:
     try:
         with quiet():
             st2 = {kk: (list(v) if isinstance(v, list) else v) for kk, v in st.items()}
-            Mn = call_spline(case, "bs", xn, st2, kw)
+            Mn = call_spline(case, "bs", asint(xn), st2, kw)
         if list(st2["knots"]) != t:
             out.fail("c12.state_retrained", f"{tag}: knots changed on reuse")
         compare(Mn, xn, "reuse")
